@@ -61,9 +61,43 @@ def make_dispatch_visitor(prefix, handler_classes):
     return cls, seen, names
 
 
+class Tag(T.Word):
+    """a user-defined node class derived from a concrete one"""
+
+
+class DateRange(T.Range):
+    pass
+
+
+class XorOperation(T.OrOperation):
+    pass
+
+
 D1 = make_dispatch_visitor("visit_", [T.BaseOperation, T.Term, T.Word, T.BaseGroup, T.UnaryOperator, T.Item])
+D4 = make_dispatch_visitor("visit_", [Tag, T.Word, DateRange, T.Range, XorOperation, T.OrOperation, T.Term])
 D2 = make_dispatch_visitor("check_", [T.AndOperation, T.Phrase, T.Range, T.BaseApprox])
 D3 = make_dispatch_visitor("visit_", [T.OrOperation, T.Group, T.Not, T.Boost])
+
+
+LONG_LIVED = {}
+
+
+class RecNew(V.PathTrackingTransformer):
+    def generic_visit(self, node, context):
+        self.seen.append((context.get("path"), context.get("new_parents"), context.get("parents")))
+        yield from super().generic_visit(node, context)
+
+
+class RecNewPlain(V.TreeTransformer):
+    def generic_visit(self, node, context):
+        self.seen.append((None, context.get("new_parents"), context.get("parents")))
+        yield from super().generic_visit(node, context)
+
+
+def node_at(t, path):
+    for i in path:
+        t = t.children[i]
+    return t
 
 
 def check(item):
@@ -109,11 +143,17 @@ def check(item):
         if not ok:
             fails.append({"input": label, "signature": "trace", "observation": "%s(%r): %s" % (vcls.__name__, kw, why)})
     # dispatch with visitors of several classes used alternately
-    for (cls, seen, names), prefix in ((D1, "visit_"), (D2, "check_"), (D3, "visit_"), (D1, "visit_")):
+    # one long-lived instance of D4 meets trees with user-defined subclasses of concrete classes first, then the stock tree
+    if "D4" not in LONG_LIVED:
+        LONG_LIVED["D4"] = D4[0]()
+    mixed = T.AndOperation(Tag("tagged"), T.Word("plain"), DateRange(T.Word("1"), T.Word("2")), T.Range(T.Word("3"), T.Word("4")),
+                           XorOperation(T.Word("x"), Tag("y")), T.OrOperation(T.Word("p"), T.Word("q")), T.Term("bare"))
+    for (cls, seen, names), prefix, inst, tree in ((D1, "visit_", None, t), (D2, "check_", None, t), (D3, "visit_", None, t), (D1, "visit_", None, t),
+                                                    (D4, "visit_", LONG_LIVED["D4"], mixed), (D4, "visit_", LONG_LIVED["D4"], t), (D4, "visit_", None, mixed)):
         n += 1
         del seen[:]
         try:
-            cls().visit(t)
+            (inst if inst is not None else cls()).visit(tree)
         except Exception as e:  # noqa: BLE001
             fails.append({"input": label, "signature": "raised", "observation": "dispatch visitor raised %r" % (e,)})
             continue
@@ -121,6 +161,30 @@ def check(item):
             want = expected_handler(prefix, type(node), names)
             if nm != want:
                 fails.append({"input": label, "signature": "dispatch", "observation": "%s handled by %s, most specific existing handler is %s" % (type(node).__name__, nm, want)})
+                break
+    # chains of NEW ancestors handed to the handlers of a transformer (track_new_parents), by identity against the result
+    for tcls, kw in ((RecNew, {"track_new_parents": True}), (RecNew, {"track_new_parents": True, "track_parents": True}),
+                     (RecNewPlain, {"track_new_parents": True}), (RecNewPlain, {"track_new_parents": True, "track_parents": True})):
+        n += 1
+        tr = tcls(**kw)
+        tr.seen = []
+        try:
+            y = tr.visit(t)
+        except Exception as e:  # noqa: BLE001
+            fails.append({"input": label, "signature": "raised", "observation": "%s(%r).visit raised %r" % (tcls.__name__, kw, e)})
+            continue
+        if len(tr.seen) != len(ref):
+            fails.append({"input": label, "signature": "new-parents", "observation": "%s(%r): %d handler calls for %d nodes" % (tcls.__name__, kw, len(tr.seen), len(ref))})
+            continue
+        for (pth, newp, par), (rn, rpar, rpath) in zip(tr.seen, ref):
+            want_new = [node_at(y, rpath[:i]) for i in range(len(rpath))]
+            got_new = list(newp or ())
+            if len(got_new) != len(want_new) or any(a is not b for a, b in zip(got_new, want_new)):
+                fails.append({"input": label, "signature": "new-parents",
+                              "observation": "%s(%r): new_parents of the node at %s are %r, the new ancestors are %r" % (tcls.__name__, kw, rpath, got_new, want_new)})
+                break
+            if kw.get("track_parents") and (len(par or ()) != len(rpar) or any(a is not b for a, b in zip(par or (), rpar))):
+                fails.append({"input": label, "signature": "new-parents", "observation": "%s(%r): parents of the node at %s are %r" % (tcls.__name__, kw, rpath, par)})
                 break
     # default copies
     for tcls, kw in ((V.TreeTransformer, {}), (V.TreeTransformer, {"track_parents": True}), (V.PathTrackingTransformer, {}), (V.PathTrackingTransformer, {"track_new_parents": True})):
